@@ -22,6 +22,9 @@ MODELRUN = os.path.join(verif.BUILD, "modelrun")
 CACHE = os.path.join(verif.ROOT, ".cache", "beacon")
 
 MODEL_SOURCES = ["coq/Beacon/*.v", "coq/Beacon/Spec/*.v", "coq/Beacon/Impl/Genesis.v", "coq/Beacon/Impl/Shuffling.v", "coq/Pubkeys/*.v", "coq/Ssz/SszCore.v", "coq/Base/Sha256.v",
+                 # the Impl model of the EpochsContext, executed against Go's dumps (epc-impl-* lines of modelrun)
+                 "coq/Beacon/Impl/Epc.v", "coq/Beacon/Refine/EpcRun.v", "coq/Beacon/Refine/EpcRefine.v", "coq/Shuffle/ShuffleModel.v", "coq/Math/MathModel.v",
+                 "coq/Base/U64.v", "coq/Base/Outcome.v",
                  "coq/Extract/ExtractBeacon.v", "ocaml/modelrun.ml"]
 HARNESS_SOURCES = ["harness/chaingen/*.go", "harness/cmd/chain/*.go", "harness/hx/*.go", "harness/go.mod"]
 
@@ -49,7 +52,7 @@ def ensure_modelrun():
     want = _hash_files(srcs)
     if os.path.exists(MODELRUN) and os.path.exists(stamp) and open(stamp).read() == want:
         return True, "up to date"
-    rc, out = verif.coq_make(["Beacon/Run.vo", "Beacon/Impl/Genesis.vo"], timeout=1500)
+    rc, out = verif.coq_make(["Beacon/Run.vo", "Beacon/Impl/Genesis.vo", "Beacon/Refine/EpcRun.vo"], timeout=1500)
     if rc != 0:
         return False, "coq build of Beacon/Run.vo failed:\n" + out[-3000:]
     os.makedirs(OCAML_DIR, exist_ok=True)
